@@ -64,6 +64,7 @@ def tree_hash():
     global _tree_hash
     if _tree_hash is None:
         h = hashlib.sha256()
+        h.update(repr(CXXFLAGS).encode())
         for d, dn, fn in sorted(os.walk(SRC)):
             dn.sort()
             for f in sorted(fn):
@@ -544,6 +545,8 @@ def check_property(prop_id, tier, spec, seed):
             tool_errors.append("%s: no reachability witness in harness" % s["name"])
         for fprop in s.get("failed", []):
             desc = fprop["description"]
+            if desc.startswith("no body for callee"):
+                tool_errors.append("%s: MISSING-MODEL %s" % (s["name"], desc)); continue
             if is_unwind(fprop) and not j.get("unwind_is_property"):
                 tool_errors.append("%s: BOUND-TOO-SMALL %s (%s)" % (s["name"], fprop["property"], desc)); continue
             # counterexample -> replay against the real code
